@@ -78,7 +78,8 @@ def answer (line : String) : String :=
   match line.splitOn " " with
   | ["flags"] =>
       s!"uniqreset={b01 Gen.TplFlows.resetsUniqueNamesPerFile} incsort={b01 Gen.TplFlows.includeGeneratorSorts} " ++
-      s!"platform={b01 Gen.TplFlows.platformVersionAuditOffOnly} ppreset={b01 Gen.TplFlows.linePPResetPerFile}"
+      s!"platform={b01 Gen.TplFlows.platformVersionAuditOffOnly} ppreset={b01 Gen.TplFlows.linePPResetPerFile} " ++
+      s!"cachedprop={b01 Gen.TplFlows.cachedPropertyPerInstance}"
   | ["clean", lang, kind, cs] =>
       match findLang lang, parseKind kind, parseSrcs cs with
       | some L, some k, some cs => b01 (L.rootsCleanFor cs k)
